@@ -8,6 +8,13 @@ CHECKS = {
  'C15': ('exploration', 'runtime differential monitoring against independent reference implementations (CRC-32 from hash/crc32, hashes and murmur re-implemented from the algorithm, net.IP), exhaustive enumeration of the small sub-spaces, golden digests for purity',
          'Executes the real hash/hexa32/bitutil/iputil functions on every input of the finite sub-spaces the property names (all byte strings of length<=2, all 2^16 byte pairs; all 2^32 half pairs and all 2^32 IPv4 addresses in the thorough tier) and on seeded random inputs elsewhere, comparing each result with an independent reference; a golden digest pins the persisted values.',
          'Trusts the Go standard library (hash/crc32, net) and the reference ports in cmd/wC15; random parts cover only the sampled inputs.', 'DESIGN.md §4 C15'),
+
+ 'C06': ('exploration', 'runtime monitoring of the real client against a fault-injecting loopback collector: offline checkers over recorded send intervals and received byte streams (well-formed frames, at-most-once, per-sender and real-time order, no loss when healthy, bounded-progress recovery) plus the Go race detector',
+         'Runs the real OneWayTcpClient (hook constructor and the production singleton path) against a loopback collector with its own frame parser under 1..32 concurrent senders, direct and queue mode, frames beyond the 2 MiB write buffer, and enumerated fault schedules (FIN/RST after exactly N bytes for every frame-header offset, body offsets and later frames; 0/1/2/5 refused reconnects). Every scenario is decided by stream oracles over what the peer received; the same scenarios run under -race.',
+         'Only interleavings and fault timings the scheduler/kernel produced are covered (evidence reports connections, cuts, recoveries, distinct arrival interleavings). Loss of data acknowledged just before a peer close is inherent to TCP and only counted. Expected payload bytes come from pack.ToBytesPack (C05 checks those bytes independently).', 'DESIGN.md §4 C06'),
+ 'C19': ('exploration', 'runtime differential monitoring of the calendar helpers against time.UnixMilli(t).UTC(), enumerating every day of 2000-2099 at fixed instants and minute boundaries; format/parse inverse over generated patterns',
+         'Every day of the century is enumerated (36 525 days x 7 instants exhaustively; every minute boundary +-1 ms of every day in the thorough tier) and each helper result compared field by field with the standard library; unit functions are checked as exact step functions at every boundary; DateFormat format/parse round trips over generated patterns.',
+         'Trusts the Go time package; instants within a day other than the enumerated ones are sampled; TZ is forced to UTC; partial patterns are checked only as far as the code documents (absent fields default to now).', 'DESIGN.md §4 C19'),
 }
 PENDING = 'check not built yet in this round (planned, see DESIGN.md §4); not claimed until its monitor exists and is silent on the unchanged tree'
 NA = {}
